@@ -7,7 +7,8 @@
             compared with [instantiate] on every recorded call).
     Part B: [step_rules_with_scheduler] (scheduler.rs:188-317) over the shared Egg model
             ([Egg/Rules.v]): the scheduler is an ARBITRARY function (Section variable), the residual
-            matches live OUTSIDE the database as tuples of raw values (they are never rebuilt),
+            matches live OUTSIDE the database as tuples of raw values (never rebuilt; the step
+            canonicalises them through the union-find before offering them again),
             queries are [Rules.match_body] over the non-subsumed rows.
     Part C: the checker for the cases written by the harness. *)
 From Coq Require Import List Arith ZArith Bool PeanoNat.
@@ -101,8 +102,9 @@ Definition head_vars (r : rule) : list nat := nodup Nat.eq_dec (flat_map action_
     through witness TERMS, which re-reads every id through the tables and so is automatically
     "modulo the current equalities". A match whose ids are all canonical when it is applied is
     executed exactly as [Rules.v] does (for canonical ids the two readings coincide on the Egg
-    model); a match that holds a displaced id is executed with the raw ids ([VRaw]) — nothing
-    between the side vector and the action rule canonicalises them (F7). *)
+    model); a match that holds a displaced id would be executed with the raw ids ([VRaw]) — this
+    was finding F7; since the step canonicalises the side vector first ([canon_t]), that branch
+    is proved unreachable from well-formed states ([c18_canonical_after_step]). *)
 Inductive vterm := VT (f : nat) (args : list vterm) | VI (z : Z) | VRaw (i : nat).
 
 Fixpoint embed (t : term) : vterm :=
@@ -285,8 +287,13 @@ Section Step.
   Definition fresh (s : state) (r : rule) : list tuple :=
     map (proj (head_vars r)) (match_body s (rbody r) [[]]).
 
+  (** the residual vector is outside the database, so no rebuild ever touches it: the step
+      re-canonicalises every id it holds through the union-find before it is offered (and
+      possibly applied) again (scheduler.rs step 3, [get_canon_repr] per column; fix of F7) *)
+  Definition canon_t (s : state) (t : tuple) : tuple := map (option_map (canon (uf s))) t.
+
   Definition offered (s : state) (r : rule) (ri : rinfo) : list tuple :=
-    ri_res ri ++ (if ri_seek ri then fresh s r else []).
+    map (canon_t s) (ri_res ri) ++ (if ri_seek ri then fresh s r else []).
 
   (** per rule: (offered, inserted into `decided`, new info) *)
   Fixpoint decide (s : state) (k : nat) (rules : list rule) (infos : list rinfo) (st : Sst)
